@@ -83,8 +83,10 @@ package ast
 //@ ghost var $valN int
 //@ ghost var $valNode Ref
 //@ ghost var $valRes RV
-//@ macro func reslogMono() bool { return $getN >= old($getN) && $fldN >= old($fldN) && $idxN >= old($idxN) && $selN >= old($selN) && $valN >= old($valN) }
-//@ modset reslog = $getN, $getCtx, $getKey, $getRes, $fldN, $fldNode, $fldName, $fldRes, $idxN, $idxNode, $idxIndex, $idxRes, $selN, $selNode, $selKey, $selRes, $valN, $valNode, $valRes
+//@ ghost var $resN array[Ref]int          // per variable: successful evaluations (resolutions) so far
+//@ ghost var $resCtx array[Ref]Ref        // per variable: the data context of its last successful resolution
+//@ macro func reslogMono() bool { return (forall v *Variable {$resN[v]} :: $resN[v] >= old($resN[v])) && $getN >= old($getN) && $fldN >= old($fldN) && $idxN >= old($idxN) && $selN >= old($selN) && $valN >= old($valN) }
+//@ modset reslog = $getN, $getCtx, $getKey, $getRes, $fldN, $fldNode, $fldName, $fldRes, $idxN, $idxNode, $idxIndex, $idxRes, $selN, $selNode, $selKey, $selRes, $valN, $valNode, $valRes, $resN, $resCtx
 //@ modset actlog = @setlog, @asglog, $exprRes, $varRes, $atomRes, @reslog
 //@ ghost var $thenFailN int             // then-statements that returned an error
 //@ modset thenlog = $thenN, $thenSeq, $thenFailN
@@ -444,6 +446,8 @@ package ast
 //@   requires treeWF()
 //@   modifies @memo, $varRes, $exprRes, $atomRes, @reslog
 //@   ghost_exit $varRes = ite(err == nil, store($varRes, e, val), $varRes)
+//@   ghost_exit $resN = ite(err == nil, store($resN, e, $resN[e] + 1), $resN)
+//@   ghost_exit $resCtx = ite(err == nil, store($resCtx, e, dataContext), $resCtx)
 //@   trusted_ensures forall x *Expression :: old(x.Evaluated) ==> x.Evaluated && x.Value == old(x.Value)
 //@   trusted_ensures forall a *ExpressionAtom :: old(a.Evaluated) ==> a.Evaluated && a.Value == old(a.Value)
 //@   trusted_ensures atomsAboveUntouched(e)
@@ -459,6 +463,7 @@ package ast
 //@   ensures err == nil ==> e.Value == val
 //@   ensures atomsAboveUntouched(e)
 //@   ensures reslogMono()
+//@   ensures forall v *Variable {$resCtx[v]} :: $resCtx[v] == old($resCtx[v]) || $resCtx[v] == dataContext
 // ExpressionAtom.Evaluate: the memo discipline is CHECKED against the body (memo hit does no work; the flag is only ever
 // set together with the value that is returned, never on an error path; every memoising branch sets it on success). The
 // A-NESTED / monotonicity / rank clauses callers rely on stay ASSUMED (trusted_ensures): they are about what the callees
@@ -569,7 +574,7 @@ package ast
 // I3 + C04: a successful assignment writes exactly the addressed location with exactly the given value, through the setter
 // of the addressed shape, and forgets every expression / atom filed under the assigned variable (and nothing else)
 //@ func (e *Variable) Assign(newVal, dataContext, memory) (err)
-//@   serves C01 C02 C04 C13
+//@   serves C01 C02 C04 C08 C13
 //@   requires treeWF()
 //@   modifies @memo, @setlog, $loc, $varRes, $exprRes, $atomRes, @reslog
 //@   ghost_entry $asgN = $asgN + 1
@@ -577,6 +582,7 @@ package ast
 //@   ghost_entry $asgVal = newVal
 //@   ghost_entry $asgExprSnap = $exprRes
 //@   ghost_entry $asgVarSnap = $varRes
+//@   checks[C01,C04,C08] ownerfresh: err == nil && e.Variable != nil ==> $resN[e.Variable] > old($resN[e.Variable]) && $resCtx[e.Variable] == dataContext
 //@   ensures[C01,C02,C04] invalidates: err == nil ==> (forall x *Expression :: inExprIdx(memory, e, x) ==> !x.Evaluated) && (forall a *ExpressionAtom :: inAtomIdx(memory, e, a) ==> !a.Evaluated)
 //@   ensures[C13] nothingelse: (forall x *Expression :: old(x.Evaluated) && !inExprIdx(memory, e, x) ==> x.Evaluated) && (forall a *ExpressionAtom :: old(a.Evaluated) && !inAtomIdx(memory, e, a) ==> a.Evaluated)
 //@   ensures[C04] toplevel: len(e.Name) > 0 && e.Variable == nil && err == nil ==> $addN == old($addN) + 1 && $addKey == e.Name && boxedRV($addObj) == newVal && $setN == old($setN)
